@@ -19,6 +19,7 @@ func register(id string, run func(*Run), replay func(Case) *Failure) {
 }
 
 func init() {
+	register("C01", runC01, checkC01)
 	register("C07", runC07, checkC07)
 	register("C09", runC09, checkC09)
 	register("C10", runC10, checkC10)
